@@ -5,7 +5,7 @@ cd /verif
 ids="$@"; [ -z "$ids" ] && ids=$(ls seeded | grep '^C')
 for id in $ids; do
   git -C /repo checkout -q -- . 
-  if ! git -C /repo apply seeded/$id/patch.diff; then echo "$id: patch does not apply" > seeded/$id/check_result.txt; continue; fi
+  if ! git -C /repo apply /verif/seeded/$id/patch.diff; then echo "$id: patch does not apply" > seeded/$id/check_result.txt; continue; fi
   props=$id
   [ -f seeded/$id/also_check.txt ] && props="$id $(cat seeded/$id/also_check.txt)"
   : > seeded/$id/check_result.txt
